@@ -418,6 +418,10 @@ impl BlockData {
             .clone()
             .expect("first slice contains a parent, validated in `try_reconstruct_slice`");
         let mut parent_switched = false;
+        if parent.0 >= slot {
+            warn!("parent in slot {} is not before block's slot {slot}", parent.0);
+            return ReconstructBlockResult::Error;
+        }
 
         let mut transactions = vec![];
         for (ind, slice) in &self.slices {
@@ -431,6 +435,10 @@ impl BlockData {
                 }
                 if parent_switched {
                     warn!("parent switched more than once");
+                    return ReconstructBlockResult::Error;
+                }
+                if new_parent.0 >= slot {
+                    warn!("parent in slot {} is not before block's slot {slot}", new_parent.0);
                     return ReconstructBlockResult::Error;
                 }
                 parent_switched = true;
